@@ -487,3 +487,35 @@ impl Drop for Scratch {
         let _ = std::fs::remove_dir_all(&self.0);
     }
 }
+
+thread_local! {
+    static LAST_PANIC: std::cell::RefCell<Option<(String, String)>> = const { std::cell::RefCell::new(None) };
+}
+
+/// Install a panic hook that records (location, message) of the last panic on each thread and
+/// stays quiet. Lets a runner tell a panic inside kanidm (`/repo/...`) from one in harness code.
+pub fn install_panic_hook() {
+    std::panic::set_hook(Box::new(|info| {
+        let loc = info
+            .location()
+            .map(|l| format!("{}:{}", l.file(), l.line()))
+            .unwrap_or_default();
+        let msg = info
+            .payload()
+            .downcast_ref::<String>()
+            .cloned()
+            .or_else(|| info.payload().downcast_ref::<&str>().map(|s| s.to_string()))
+            .unwrap_or_else(|| "panic".into());
+        LAST_PANIC.with(|p| *p.borrow_mut() = Some((loc, msg)));
+    }));
+}
+
+/// (location, message) of the last panic on this thread, cleared by the call.
+pub fn take_last_panic() -> Option<(String, String)> {
+    LAST_PANIC.with(|p| p.borrow_mut().take())
+}
+
+/// True if a panic location lies in kanidm's own sources.
+pub fn panic_in_kanidm(loc: &str) -> bool {
+    loc.starts_with("/repo/") || loc.contains("/repo/")
+}
